@@ -1,5 +1,6 @@
 import Hertz.Driver.Core
 import Hertz.Model.Args
+import Hertz.Spec.UrlQuery
 namespace Hertz.Driver.C17
 open Hertz Hertz.Driver
 
@@ -76,7 +77,12 @@ def handle : Handler
       | a :: b :: t => a :: b :: dropEmpty t
       | t => t
     let accepted := std != ["E"]
-    pure { out := mine ++ "#" :: std, spec := !accepted || implMine == dropEmpty std,
+    -- the Lean model of net/url (`Spec/UrlQuery.lean`) is compared with the real net/url on every case:
+    -- its tokens, not the implementation's, go into `out` after `#`, so a disagreement is a DIFF
+    let stdModel := match Spec.UrlQuery.stdParse b with
+      | none => ["E"]
+      | some ps => ps.flatMap (fun p => [encHex p.1, encHex p.2])
+    pure { out := mine ++ "#" :: stdModel, spec := !accepted || implMine == dropEmpty std,
            specNote := "agrees with net/url where net/url accepts",
            tag := "argsstd:" ++ boolTok accepted ++ sizeClass l.length }
   | _, _ => none
